@@ -11,7 +11,7 @@ LEVEL = 'exploration'
 RULE = ('Hypothesis: 2 SPs each with 1-4 AssertionConsumerService, 0-3 SingleLogoutService, 0-2 ManageNameIDService endpoints over POST/Redirect/Artifact/PAOS/SOAP with locations '
         'from a pool of look-alike URLs (case, trailing slash, query, port, scheme, other SP), indexes and isDefault x request {AuthnRequest, LogoutRequest, ManageNameIDRequest} with '
         'consumer URL {registered, registered for another binding, near miss, other SP\'s, absent}, index {registered, unknown, absent}, ProtocolBinding {given, absent, unsupported}, '
-        'issuer {known, other SP, unknown}, explicit bindings argument or not; sequences of 1-4 requests on one IdP. '
+        'issuer {known, other SP, unknown}, explicit bindings argument or not, answer derived through response_args / pick_binding(request=) / pick_binding(request=, entity_id=); sequences of 1-4 requests on one IdP. '
         'Non-trivial = URL or index supplied, or issuer unknown; distinct = distinct case.')
 ASSUMPTIONS = ['reference model = the spec dictionaries the metadata XML is rendered from (harness templates, not the library writer)',
                'requests are built as objects and passed to Server.response_args (what an IdP front-end does after parsing)']
@@ -36,7 +36,9 @@ def case_strategy():
                                  'url': st.one_of(st.none(), url, st.just('@registered'), st.just('@other-sp')), 'index': st.one_of(st.none(), st.none(), st.integers(0, 7), st.just('@registered'), st.just('@registered')),
                                  'protocol_binding': st.one_of(st.none(), st.none(), st.just('@registered'), st.sampled_from(sorted(B)), st.just('urn:unsupported:binding')),
                                  'bindings': st.one_of(st.none(), st.none(), st.none(), st.lists(st.sampled_from(sorted(B)), min_size=1, max_size=4, unique=True)),
-                                 'both': st.booleans()})
+                                 'both': st.booleans(),
+                                 # which public call derives the answer address: response_args(request) or pick_binding(service, ..., request=, [entity_id=issuer]) as example IdPs call it
+                                 'via': st.sampled_from(['response_args', 'response_args', 'pick_binding', 'pick_binding+entity_id'])})
     return st.fixed_dictionaries({'sps': st.tuples(sp, sp).map(list), 'requests': st.lists(req, min_size=1, max_size=4)})
 
 
@@ -92,8 +94,14 @@ def run(case):
         bindings = None if rq['bindings'] is None else [B[b] for b in rq['bindings']]
         if url is not None or index is not None or issuer == 'unknown':
             nt = True
+        via = rq.get('via', 'response_args')
         try:
-            info = idp.response_args(msg, bindings)
+            if via == 'response_args' or rq['typ'] != 'authn':
+                info = idp.response_args(msg, bindings)
+            else:
+                kw = {'entity_id': ent} if via == 'pick_binding+entity_id' else {}
+                b_, d_ = idp.pick_binding('assertion_consumer_service', bindings, 'spsso', request=msg, **kw)
+                info = {'binding': b_, 'destination': d_}
             err = None
         except Exception as e:
             info, err = None, e
@@ -120,7 +128,7 @@ def run(case):
             admissible = bindings or ([pb] if pb else None)
             if admissible and binding not in admissible:
                 raise Violation('binding-not-admissible', 'request %d: binding %s not among %r' % (n, binding, admissible))
-        labels.add('answered' + ('|url' if url else '') + ('|index' if index else ''))
+        labels.add('answered' + ('|url' if url else '') + ('|index' if index else '') + ('' if via == 'response_args' or rq['typ'] != 'authn' else '|' + via))
     for n, rq in enumerate(case['requests']):
         if rq['typ'] == 'authn' and rq.get('both') and rq['url'] is not None and rq['index'] is not None:
             labels.add('url+index-request')
